@@ -433,6 +433,66 @@ pub fn skeletons(full: bool, rep3: bool) -> Vec<Skeleton> {
     out
 }
 
+/// "Long" skeletons: one list dimension at a time (and pairs of dimensions) stretched to 4..=8
+/// elements, the others at a base value -- the small-scope walk above stops at two or three
+/// elements per list.  Elements are given out of order so that sorting is exercised.
+pub fn long_skeletons() -> Vec<Skeleton> {
+    const VARS: [&str; 8] = ["valencia", "1996", "fonipa", "abcde", "1abc", "zzzzzzzz", "a1b2c", "9999"];
+    const ATTRS: [&str; 8] = ["zzz", "abc", "mmm12345", "a1b", "foo", "bar", "qux9", "zz0"];
+    const KEYS: [&str; 8] = ["nu", "ca", "hc", "co", "kf", "1a", "ms", "kn"];
+    const TYPES: [&str; 4] = ["buddhist", "thai", "islamic-civil", "foo-bar-baz"];
+    const TKEYS: [&str; 8] = ["s0", "h0", "k1", "d0", "i0", "m0", "t0", "x0"];
+    const TAGS: [&str; 8] = ["zz", "a", "12345678", "b", "0", "mm", "a1", "z"];
+    let vars = |n: usize| VARS[..n].join("-");
+    let us_attrs = |n: usize| format!("u-{}", ATTRS[..n].join("-"));
+    let us_kw = |n: usize| {
+        let mut s = String::from("u");
+        for i in 0..n {
+            s.push('-');
+            s.push_str(KEYS[i]);
+            if i % 4 != 3 {
+                s.push('-');
+                s.push_str(TYPES[i % 4]);
+            }
+        }
+        s
+    };
+    let ts = |n: usize| {
+        let mut s = String::from("t-de-Latn");
+        for i in 0..n {
+            s.push('-');
+            s.push_str(TKEYS[i]);
+            s.push('-');
+            s.push_str(if i % 3 == 0 { "hybrid" } else if i % 3 == 1 { "foo-bar" } else { "true-baz" });
+        }
+        s
+    };
+    let xs = |n: usize| format!("x-{}", TAGS[..n].join("-"));
+    let mut out = vec![];
+    for id in ["en", "und-Latn-001"] {
+        for n in 4..=8usize {
+            let idv = format!("{}-{}", id, vars(n));
+            out.push(build_skeleton(&idv, "", "", "", false));
+            out.push(build_skeleton(id, &us_attrs(n), "", "", false));
+            out.push(build_skeleton(id, &us_kw(n), "", "", false));
+            out.push(build_skeleton(id, "", &ts(n), "", false));
+            out.push(build_skeleton(id, "", "", &xs(n), false));
+            // tlang with many variants
+            out.push(build_skeleton(id, "", &format!("t-de-{}-h0-hybrid", vars(n)), "", false));
+        }
+        for (a, b) in [(4usize, 4usize), (5, 6), (8, 8)] {
+            let idv = format!("{}-{}", id, vars(a));
+            let mut u = us_attrs(a);
+            u.push_str(&us_kw(b)[1..]);
+            out.push(build_skeleton(&idv, &u, &ts(b), &xs(a), false));
+            out.push(build_skeleton(&idv, &u, &ts(b), &xs(a), true));
+            out.push(build_skeleton(id, &us_kw(a), &ts(b), "", true));
+            out.push(build_skeleton(&idv, "", "", &xs(b), false));
+        }
+    }
+    out
+}
+
 pub fn langid_skeletons(rep3: bool) -> Vec<Skeleton> {
     langid_skeleton_strings(true, rep3)
         .iter()
